@@ -23,7 +23,9 @@ def load(prop_id):
 
 
 def match(known, fingerprint):
+    """An entry lists ONE root cause with the specific failing inputs that show it:
+    "fingerprint": str and/or "fingerprints": [str, ...] (exact matches only)."""
     for k in known:
-        if k["fingerprint"] == fingerprint:
+        if k.get("fingerprint") == fingerprint or fingerprint in k.get("fingerprints", ()):
             return k
     return None
